@@ -3,7 +3,7 @@ import random, json, os
 from rig import common, tp
 
 KEEP = {"send.enter", "send.direct", "send.running", "send.notrunning", "wr", "ret.send", "rd", "recv.run",
-        "cb", "quiesce", "Reset"}
+        "cb", "quiesce", "Reset"} | tp.LIFE_CREATE
 
 def gen_scenario(rng, sid, big=False):
     """one life of a pool: create, start, concurrent senders, quiesce, destroy"""
